@@ -88,8 +88,12 @@ def minlex_postorder(kids_set, roots):
     return out
 
 
-def check_tree(tree, model, opts, deep=True, rng=None):
-    """Returns a list of (key, message). opts: dict(sample_lists, root_threshold, tracked)."""
+def check_tree(tree, model, opts, deep=True, rng=None, wide=False):
+    """Returns a list of (key, message). opts: dict(sample_lists, root_threshold, tracked).
+
+    wide=True adds the alternative entry points / argument forms of the same views (scalar accessors next to
+    the *_array properties, per-tree sites on every path, deprecated get_* aliases, traversal root arguments,
+    the mutation -> edge map).  It is off by default so that other importers (C06) keep their cost profile."""
     bad = []
     n = model.num_nodes
     left, right = tree.interval.left, tree.interval.right
@@ -190,6 +194,8 @@ def check_tree(tree, model, opts, deep=True, rng=None):
             bad.append(("edge_array", f"edge_array[{u}]={ea[u]} for parentless node"))
     if tree.num_edges != len(fr.parent):
         bad.append(("num_edges", f"num_edges={tree.num_edges} expected {len(fr.parent)}"))
+    if wide:
+        bad += _wide_shallow(tree, model, opts, fr, left, right, tset, tracked)
     if bad or not deep:
         return bad
     # (5b) leaves
@@ -437,6 +443,187 @@ def check_tree(tree, model, opts, deep=True, rng=None):
                     bad.append(("balance", f"colless {tree.colless_index()} expected {col}"))
             except Exception as ex:  # noqa: BLE001
                 bad.append(("balance", f"colless_index raised {ex!r}"))
+    if wide:
+        bad += _wide_deep(tree, model, opts, fr, kid_order, roots, exp_roots, reach, x, left, right, tset, tracked,
+                          rng)
+    return bad
+
+
+def _pick_nodes(n, rng, k):
+    """A few node ids: the extremes plus a deterministic / rng spread (all of them when n is small)."""
+    if n <= k:
+        return list(range(n))
+    out = {0, n - 1, n // 2}
+    import random as _random
+    r = rng or _random.Random(n * 104729 + k)
+    while len(out) < k:
+        out.add(r.randrange(n))
+    return sorted(out)
+
+
+def _wide_shallow(tree, model, opts, fr, left, right, tset, tracked):
+    """Cheap alternative forms checked on EVERY access path (iteration, reversed, at, at_index, first/last,
+    copies, reused trees): the per-node accessor *methods* next to the arrays, the tree's site list (it is set
+    by the same C routine that sets index and interval, separately on next/prev/seek/copy), totals without
+    arguments, constructor options read back."""
+    bad = []
+    n = model.num_nodes
+    arrays = (("parent", tree.parent_array), ("left_child", tree.left_child_array),
+              ("right_child", tree.right_child_array), ("left_sib", tree.left_sib_array),
+              ("right_sib", tree.right_sib_array), ("num_children", tree.num_children_array),
+              ("edge", tree.edge_array))
+    nodes = list(range(n + 1)) if n <= 40 else _pick_nodes(n, None, 24) + [n]
+    for name, arr in arrays:
+        if len(arr) != n + 1:
+            bad.append(("scalar/" + name, f"{name}_array has length {len(arr)}, expected {n + 1}"))
+            continue
+        fn = getattr(tree, name)
+        for u in nodes:
+            g = fn(u)
+            if g != int(arr[u]):
+                bad.append(("scalar/" + name, f"{name}({u})={g} but {name}_array[{u}]={int(arr[u])}"))
+                break
+    # sites of this tree: ids of the site rows with left <= position < right, in id order
+    exp_sites = model.sites_in(left, right)
+    if tree.num_sites != len(exp_sites):
+        bad.append(("sites", f"num_sites {tree.num_sites} expected {len(exp_sites)} in [{left},{right})"))
+    else:
+        got_sites = [s.id for s in tree.sites()]
+        if got_sites != exp_sites:
+            bad.append(("sites", f"tree.sites ids {got_sites} expected {exp_sites} in [{left},{right})"))
+    # totals: no argument == virtual root == all tracked samples ("the total number of tracked samples in the tree")
+    nt = len(tset)
+    if tree.num_tracked_samples() != nt or tree.num_tracked_samples(tree.virtual_root) != nt:
+        bad.append(("num_tracked", f"num_tracked_samples()={tree.num_tracked_samples()} "
+                    f"num_tracked_samples(virtual_root)={tree.num_tracked_samples(tree.virtual_root)} expected {nt}"))
+    if tree.root_threshold != opts.get("root_threshold", 1):
+        bad.append(("options", f"root_threshold={tree.root_threshold} expected {opts.get('root_threshold', 1)}"))
+    if tree.sample_size != len(model.samples()):
+        bad.append(("options", f"sample_size={tree.sample_size} expected {len(model.samples())}"))
+    return bad
+
+
+def _subtree_sorted(model, fr, u, n, roots):
+    """Nodes of the traversal from u ordered by (time, id); the virtual root has time +inf and stands above the roots."""
+    if u == n:
+        nodes = [v for r in roots for v in fr.descendants(r)]
+        return sorted(nodes, key=lambda v: (model.time(v), v)) + [n]
+    return sorted(fr.descendants(u), key=lambda v: (model.time(v), v))
+
+
+def _wide_deep(tree, model, opts, fr, kid_order, roots, exp_roots, reach, x, left, right, tset, tracked, rng):
+    import warnings
+
+    bad = []
+    n = model.num_nodes
+    vroot = n
+    kids = lambda u: kid_order[u]  # noqa: E731
+    some = _pick_nodes(n, rng, 5)
+    # (8b) traversal root arguments for the remaining orders, array forms with a root, the levelorder alias
+    for u in some + [vroot]:
+        e = _subtree_sorted(model, fr, u, n, exp_roots)
+        got = list(tree.nodes(u, order="timeasc"))
+        if got != e:
+            bad.append(("traversal", f"nodes({u}, order=timeasc)={got} expected {e}"))
+        got = list(tree.nodes(u, order="timedesc"))
+        if got != e[::-1]:
+            bad.append(("traversal", f"nodes({u}, order=timedesc)={got} expected {e[::-1]}"))
+        if list(map(int, tree.timeasc(u))) != e or list(map(int, tree.timedesc(u))) != e[::-1]:
+            bad.append(("traversal", f"timeasc({u})/timedesc({u}) arrays {list(tree.timeasc(u))} {list(tree.timedesc(u))} "
+                        f"expected {e} and its reverse"))
+        if u == vroot:
+            e = minlex_postorder(lambda v: fr.kids(v), exp_roots) + [vroot]
+        else:
+            e = minlex_postorder(lambda v: fr.kids(v), [u])
+        got = list(tree.nodes(u, order="minlex_postorder"))
+        if got != e:
+            bad.append(("traversal", f"nodes({u}, order=minlex_postorder)={got} expected {e}"))
+        if list(map(int, tree.preorder(u))) != expected_order("preorder", kids, [u], None):
+            bad.append(("traversal", f"preorder({u}) array {list(tree.preorder(u))}"))
+        if list(map(int, tree.postorder(u))) != expected_order("postorder", kids, [u], None):
+            bad.append(("traversal", f"postorder({u}) array {list(tree.postorder(u))}"))
+        got = list(tree.nodes(u, order="breadthfirst"))
+        e = expected_order("levelorder", kids, [u], None)
+        if got != e:
+            bad.append(("traversal", f"nodes({u}, order=breadthfirst)={got} expected {e}"))
+    if list(tree.nodes(order="breadthfirst")) != expected_order("levelorder", kids, roots, None):
+        bad.append(("traversal", "nodes(order=breadthfirst) differs from the level order"))
+    if list(tree.nodes(None, "postorder")) != expected_order("postorder", kids, roots, None):
+        bad.append(("traversal", "nodes(None, 'postorder') positional form"))
+    e = sorted(reach, key=lambda v: (model.time(v), v))
+    if list(map(int, tree.timeasc())) != e or list(map(int, tree.timedesc())) != e[::-1]:
+        bad.append(("traversal", f"timeasc()/timedesc() arrays {list(tree.timeasc())} expected {e} and its reverse"))
+    # leaves() without an argument: the leaves reachable from the roots
+    e = sorted(v for v in reach if not fr.kids(v))
+    got = sorted(tree.leaves())
+    if got != e:
+        bad.append(("leaves", f"leaves()={got} expected {e}"))
+    # (9b) the edge each mutation sits on: the edge above its node at the site's position, NULL for a parentless node
+    for s in tree.sites():
+        eid = model.edge_ids_at(s.position)
+        for mu in list(s.mutations) + [tree.tree_sequence.mutation(mu.id) for mu in s.mutations]:
+            e = eid.get(mu.node, NULL)
+            if mu.edge != e:
+                bad.append(("mutation-edge", f"mutation {mu.id} on node {mu.node} at position {s.position}: "
+                            f"edge={mu.edge} expected {e}"))
+    # interval / span forms
+    iv = tree.interval
+    if (iv[0], iv[1]) != (left, right) or iv.span != right - left or iv.mid != left + (right - left) / 2:
+        bad.append(("interval", f"interval {iv} span/mid forms"))
+    # more than one root: .root is documented to raise ValueError
+    if len(exp_roots) > 1:
+        try:
+            bad.append(("roots", f"root={tree.root} returned with {len(exp_roots)} roots (ValueError documented)"))
+        except ValueError:
+            pass
+    # deprecated aliases: each must give the value of the documented method (compared with the reference, not
+    # with the method itself)
+    with warnings.catch_warnings():
+        warnings.simplefilter("ignore")
+        al = []
+        for u in some:
+            sb = fr.samples_below(u)
+            al += [
+                (f"get_parent({u})", tree.get_parent(u), fr.par(u)),
+                (f"get_children({u})", sorted(tree.get_children(u)), sorted(fr.kids(u))),
+                (f"get_time({u})", tree.get_time(u), model.time(u)),
+                (f"get_branch_length({u})", tree.get_branch_length(u), fr.branch_length(u)),
+                (f"get_population({u})", tree.get_population(u), model.nodes[u][2]),
+                (f"get_num_samples({u})", tree.get_num_samples(u), len(sb)),
+                (f"get_num_leaves({u})", tree.get_num_leaves(u), len(sb)),
+                (f"get_num_tracked_samples({u})", tree.get_num_tracked_samples(u), len([s for s in sb if s in tset])),
+                (f"get_num_tracked_leaves({u})", tree.get_num_tracked_leaves(u), len([s for s in sb if s in tset])),
+                (f"get_leaves({u})", sorted(tree.get_leaves(u)), sorted(sb)),
+            ]
+            v = some[-1]
+            e = fr.mrca(u, v)
+            al.append((f"get_mrca({u},{v})", tree.get_mrca(u, v), e))
+            if e != NULL:
+                al.append((f"get_tmrca({u},{v})", tree.get_tmrca(u, v), model.time(e)))
+                al.append((f"mrca(np.int32({u}),np.int64({v}))", tree.mrca(np.int32(u), np.int64(v)), e))
+            al.append((f"parent(np.int32({u}))", tree.parent(np.int32(u)), fr.par(u)))
+            al.append((f"num_samples(np.int64({u}))", tree.num_samples(np.int64(u)), len(sb)))
+        al += [
+            ("get_index()", tree.get_index(), tree.index),
+            ("get_interval()", tuple(tree.get_interval()), (left, right)),
+            ("get_length()", tree.get_length(), right - left),
+            ("length", tree.length, right - left),
+            ("get_sample_size()", tree.get_sample_size(), len(model.samples())),
+            ("get_num_samples()", tree.get_num_samples(), len(model.samples())),
+            ("get_num_tracked_samples()", tree.get_num_tracked_samples(), len(tset)),
+            ("get_parent_dict()", tree.get_parent_dict(), fr.parent),
+            ("num_nodes", tree.num_nodes, n),
+            ("get_num_mutations()", tree.get_num_mutations(),
+             sum(len(model.site_mutations(j)) for j in model.sites_in(left, right))),
+        ]
+        if len(exp_roots) == 1:
+            al.append(("get_root()", tree.get_root(), next(iter(exp_roots))))
+        for what, g, e in al:
+            if g != e:
+                bad.append(("alias", f"{what}={g} expected {e}"))
+        g = float(tree.get_total_branch_length())
+        if not isclose(g, float(tree.total_branch_length), 1e-12, 0):
+            bad.append(("alias", f"get_total_branch_length()={g} but total_branch_length={tree.total_branch_length}"))
     return bad
 
 
